@@ -2,15 +2,17 @@
 """tools/keepseed.py <ID> <property> <needs> <summary-json-file>: store a confirmed seeded change under seeded/<ID>/"""
 import json, os, shutil, sys
 sid, prop, needs, summ = sys.argv[1:5]
-d = os.path.join('/verif/seeded', sid)
+root = sys.argv[sys.argv.index('--root') + 1] if '--root' in sys.argv else '/tmp/seed'
+name = sys.argv[sys.argv.index('--name') + 1] if '--name' in sys.argv else sid
+d = os.path.join('/verif/seeded', name)
 os.makedirs(d, exist_ok=True)
-shutil.copy('/tmp/seed/%s.patch.diff' % sid, os.path.join(d, 'patch.diff'))
-shutil.copy('/tmp/seed/%s/demo.py' % sid, os.path.join(d, 'demo.py'))
+shutil.copy('%s/%s.patch.diff' % (root, sid), os.path.join(d, 'patch.diff'))
+shutil.copy('%s/%s/demo.py' % (root, sid), os.path.join(d, 'demo.py'))
 s = json.load(open(summ))
-meta = dict(id=sid, breaks_property=prop, needs_to_manifest=needs,
+meta = dict(id=name, breaks_property=prop, needs_to_manifest=needs,
             confirmed=dict(demo_without_change=s.get('demo_without_change'), demo_with_change=s.get('demo_with_change'),
                            patch_applies=s.get('patch_applies'), baseline=s.get('baseline')),
             checks_run={k: dict(exit=v['exit'], first=v['lines'][:2]) for k, v in s.get('checks', {}).items()},
-            how='tools/seedcheck.py %s seeded/%s/patch.diff seeded/%s/demo.py --baseline --checks ... (scratch copy of /repo, removed afterwards)' % (sid, sid, sid))
+            how='tools/seedcheck.py %s seeded/%s/patch.diff seeded/%s/demo.py --baseline --checks ... (scratch copy of /repo, removed afterwards)' % (name, name, name))
 json.dump(meta, open(os.path.join(d, 'meta.json'), 'w'), indent=1)
 print('kept', d)
